@@ -424,6 +424,58 @@ theorem perlbrace_same_signature_silent (pfx : Extra) (srcLoc dstLoc : List Char
   · unfold Unknown at hk; rw [keys_perlNamed, keys_perlNamed] at hk; exact hk.2 ((h k).2 hk.1)
   · unfold Missing at hk; rw [keys_perlNamed, keys_perlNamed] at hk; exact hk.2 ((h k).1 hk.1)
 
+/-! ## The output is determined, order included -/
+
+/-- **`sorted()` emits keys in increasing order, so the comparators' output is determined by the signatures.**
+    perl-brace: `U`, `M` are THE strictly increasing lists (code-point order) of the placeholders only in the translation /
+    only in the source (the latter empty when the single one is tolerated) — unique by `output_lists_unique`. -/
+theorem perlbrace_output_determined (pfx : Extra) (srcLoc dstLoc : List Char) (omittedOk : Bool) (src dst : PerlBraceSig)
+    (hs : PerlWf src) (hd : PerlWf dst) :
+    ∃ U M, checkArgsPerlBrace pfx srcLoc src dstLoc dst omittedOk =
+        .ok (U.map (perlUnknownTag pfx srcLoc dstLoc) ++ M.map (perlMissingTag pfx srcLoc dstLoc)) ∧
+      Sorted strLt U ∧ (∀ k, k ∈ U ↔ Unknown (perlNamed src) (perlNamed dst) k) ∧
+      Sorted strLt M ∧ (∀ k, k ∈ M ↔ Missing (perlNamed src) (perlNamed dst) k ∧ perlTolerated src dst omittedOk = false) :=
+  checkArgsPerlBrace_determined pfx srcLoc src dstLoc dst omittedOk hs hd
+
+/-- python-brace: numbers before names (`sort_key`), numbers ascending, names in code-point order -/
+theorem pybrace_output_determined (pfx : Extra) (srcLoc dstLoc : List Char) (omittedOk : Bool) (src dst : PyBraceSig)
+    (hs : BraceWf src) (hd : BraceWf dst) :
+    ∃ K U M, checkArgsPyBrace pfx srcLoc src dstLoc dst omittedOk =
+        .ok (K.flatMap (clashAt (braceClash pfx srcLoc dstLoc) src.args dst.args) ++
+          U.map (braceUnknownTag pfx srcLoc dstLoc) ++ M.map (braceMissingTag pfx srcLoc dstLoc)) ∧
+      Sorted BKey.lt K ∧ (∀ k, k ∈ K ↔ k ∈ keys (braceNamed src) ∧ k ∈ keys (braceNamed dst)) ∧
+      Sorted BKey.lt U ∧ (∀ k, k ∈ U ↔ Unknown (braceNamed src) (braceNamed dst) k) ∧
+      Sorted BKey.lt M ∧ (∀ k, k ∈ M ↔ Missing (braceNamed src) (braceNamed dst) k ∧ braceTolerated src dst omittedOk = false) :=
+  checkArgsPyBrace_determined pfx srcLoc src dstLoc dst omittedOk hs hd
+
+theorem python_output_determined (pfx : Extra) (srcLoc dstLoc : List Char) (omittedOk : Bool) {s s' : List Char}
+    {src dst : PyFmt.Result} (h : pyParse s = .ok src) (h' : pyParse s' = .ok dst) :
+    ∃ K U M, checkArgsPython pfx srcLoc src dstLoc dst omittedOk = .ok (
+        (if dst.seq.length != src.seq.length then [pyNumberTag pfx srcLoc src dstLoc dst] else []) ++
+        (typeDiffs (pySeq src) (pySeq dst)).map (pyTypeTag pfx srcLoc dstLoc) ++
+        K.flatMap (clashAt (pyClash pfx srcLoc dstLoc) src.map dst.map) ++
+        U.map (pyUnknownTag pfx srcLoc dstLoc) ++ M.map (pyMissingTag pfx srcLoc dstLoc)) ∧
+      Sorted strLt K ∧ (∀ k, k ∈ K ↔ k ∈ keys (pyNamed src) ∧ k ∈ keys (pyNamed dst)) ∧
+      Sorted strLt U ∧ (∀ k, k ∈ U ↔ Unknown (pyNamed src) (pyNamed dst) k) ∧
+      Sorted strLt M ∧ (∀ k, k ∈ M ↔ Missing (pyNamed src) (pyNamed dst) k ∧ pyTolerated src dst omittedOk = false) :=
+  checkArgsPython_determined pfx srcLoc src dstLoc dst omittedOk (pyParse_wf h) (pyParse_wf h')
+
+/-- a strictly increasing list is determined by its members (both orders used are strict total orders) -/
+theorem output_lists_unique :
+    (∀ l l' : List (List Char), Sorted strLt l → Sorted strLt l' → (∀ x, x ∈ l ↔ x ∈ l') → l = l') ∧
+    (∀ l l' : List BKey, Sorted BKey.lt l → Sorted BKey.lt l' → (∀ x, x ∈ l ↔ x ∈ l') → l = l') :=
+  ⟨sorted_unique strLt_strictTotal, sorted_unique bkeyLt_strictTotal⟩
+
+/-- C: the output of `check_args` in closed form — the count diagnostic first, then the type diagnostics in position order -/
+theorem c_output_determined (pfx : Extra) (srcLoc dstLoc : List Char) (omittedOk : Bool) {s s' : List Char} {f f' : CFmtX}
+    (h : cParse s = .ok f) (h' : cParse s' = .ok f') :
+    checkArgsC pfx srcLoc f dstLoc f' omittedOk =
+      .ok (cCountTags pfx srcLoc f dstLoc f' omittedOk ++
+        (typeDiffs (typesOf f.arguments) (typesOf f'.arguments)).map (cTypeTag pfx srcLoc dstLoc)) := by
+  obtain ⟨_, _, _, _, hs⟩ := cParse_sound h
+  obtain ⟨_, _, _, _, hs'⟩ := cParse_sound h'
+  exact checkArgsC_eq pfx srcLoc f dstLoc f' omittedOk hs hs'
+
 /-! ## `check_message`: which strings are compared with which, and with what tolerance -/
 
 /-- **A message of the property's domain** (PO file, usable charset, not fuzzy) whose `msgid` — and `msgid_plural`, if any —
